@@ -41,13 +41,13 @@ def main():
     env = dict(os.environ, PYTHONPATH=wt, PYTHONDONTWRITEBYTECODE='1')
 
     sh('git checkout -- . ', cwd=wt)
-    rc0, o0 = sh(f'/venv/bin/python {out}/demo.py', cwd=wt, env=env, timeout=900)
+    rc0, o0 = sh(f'/venv/bin/python {seed}/demo.py', cwd=seed, env=env, timeout=900)
     meta['demo_without_patch_rc'] = rc0
     rc, o = sh(f'git apply {out}/patch.diff', cwd=wt)
     meta['patch_applies'] = rc == 0
     if rc != 0:
         meta['error'] = o[-500:]
-    rc1, o1 = sh(f'/venv/bin/python {out}/demo.py', cwd=wt, env=env, timeout=900)
+    rc1, o1 = sh(f'/venv/bin/python {seed}/demo.py', cwd=seed, env=env, timeout=900)
     meta['demo_with_patch_rc'] = rc1
     meta['demo_with_patch_tail'] = o1[-600:]
     if not skip_tests and meta['patch_applies']:
